@@ -207,8 +207,10 @@ def gen(rng, cfg=None):
             items.append({'k': 'labimm', 'max': 8})
         elif k == 'string':
             s = ''.join(rng.choice('abcXYZ 019_') for _ in range(rng.randint(1, 6)) )
+            if rng.random() < 0.35:
+                s += rng.choice(['é', 'ß', '中', '€', '😀', 'Ω'])        # UTF-8 length differs from the character count
             items.append({'k': 'string', 'text': s.strip() or 'x'})
-            if len(items[-1]['text']) % 2:
+            if len(items[-1]['text'].encode('utf-8')) % 2:
                 items.append({'k': 'align', 'n': 2})
     # ---- pessimistic offsets, then resolve transfers and label-valued operands
     off = []
